@@ -99,6 +99,15 @@ def check(run, repo, world):
                     for (v3, s3) in _call_method(I, s2, obj, "add_to_frame",
                                                  [fsym]):
                         if isinstance(v3, Raise):
+                            # a frame of the right size is never refused,
+                            # whatever its bits are (the command bit, stale
+                            # contents)
+                            run.ob("R-ADDR-LOCAL", ADDR + kind +
+                                   "#any-frame-of-the-size", False,
+                                   "add_to_frame raises %s for some contents "
+                                   "of a %d-bit frame: the refusal must "
+                                   "depend on the frame's size only" % (
+                                       v3.exc, width), where(mod, c.node))
                             continue
                         f3 = s3.d(fsym)
                         outside += [j for j in range(width) if not (
